@@ -38,11 +38,13 @@ Definition act_rel (a : wact) : option rel :=
 
 Definition is_err (a : wact) : bool := match a with WErr _ _ => true | _ => false end.
 
-(* Path::is_dir() as used by ignore_filter: follows links *)
-Definition tree_is_dir (t : tree) : bool :=
+(* the `is_dir` flag ignore_filter hands to the matcher: the type of the entry AS WALKED (walkdir's file_type) — a
+   directory, or, when links are followed, a link that resolves to one.  Without -L a symbolic link is never a directory
+   (git's rule for `name/` patterns; fix e0053b4 — before it Path::is_dir() was asked, which follows links always) *)
+Definition tree_is_dir (deref : bool) (t : tree) : bool :=
   match t with
   | TDir _ => true
-  | TLink _ (LTarget (TDir _)) => true
+  | TLink _ (LTarget (TDir _)) => deref
   | _ => false
   end.
 
@@ -64,7 +66,7 @@ Section Walk.
     if w_no_clobber cfg && dexists r then ([WErr 1 r], false) else k.
 
   Fixpoint walk (r : rel) (t : tree) {struct t} : list wact * bool :=
-    if negb (keep r (tree_is_dir t)) then ([], true) else
+    if negb (keep r (tree_is_dir (w_deref cfg) t)) then ([], true) else
     let children_of := fix go (cs : list (name * tree)) : list (list wact * bool) :=
         match cs with
         | [] => []
@@ -117,7 +119,7 @@ Fixpoint entries (deref : bool) (r : rel) (t : tree) {struct t} : list (rel * ek
         | LTarget (TOther ft) => [(r, EOther ft, false)]
         | LTarget (TLink _ _) => [(r, EBroken 4, false)]
         end
-      else [(r, ELink text, tree_is_dir t)]
+      else [(r, ELink text, tree_is_dir deref t)]
   end.
 
 (* prefixes of a relative path from the root: [] , [a], [a;b], ... *)
@@ -202,7 +204,7 @@ Section Sel.
   Variable deref : bool.
 
   Fixpoint sel_entries (r : rel) (t : tree) {struct t} : list (rel * ekind * bool) :=
-    if negb (keep r (tree_is_dir t)) then [] else
+    if negb (keep r (tree_is_dir deref t)) then [] else
     let children_of := fix go (cs : list (name * tree)) : list (rel * ekind * bool) :=
         match cs with
         | [] => []
@@ -224,7 +226,7 @@ Section Sel.
           | LTarget (TOther ft) => [(r, EOther ft, false)]
           | LTarget (TLink _ _) => [(r, EBroken 4, false)]
           end
-        else [(r, ELink text, tree_is_dir t)]
+        else [(r, ELink text, tree_is_dir deref t)]
     end.
 End Sel.
 
